@@ -70,20 +70,19 @@ CeilLog2Fp8(n) ==
 (* L / 256 <= log2(m) and log2(m) <= U / 256 for natives m >= 1, 0 <= L, U <= 4352, decided with
    the enclosure k + a/2^j <= log2 m <= k + (a+w)/2^j (j <= 8); when the enclosure cannot decide,
    by exact integer powers 2^L <= m^256 resp. m^256 <= 2^U. *)
-Lower256OK(m, L) ==
+Encl256(m) ==
   LET en == Log2Encl(FromNat(m), One, 8)
       s == P2(en.j)
       a == ToNat(en.a)
-  IN IF L * s <= 256 * (en.k * s + a) THEN TRUE
-     ELSE IF L * s > 256 * (en.k * s + a + en.w) THEN FALSE
-     ELSE Cmp(PowerOfTwo(L), Pow(FromNat(m), 256)) <= 0
-Upper256OK(m, U) ==
-  LET en == Log2Encl(FromNat(m), One, 8)
-      s == P2(en.j)
-      a == ToNat(en.a)
-  IN IF U * s >= 256 * (en.k * s + a + en.w) THEN TRUE
-     ELSE IF U * s < 256 * (en.k * s + a) THEN FALSE
-     ELSE Cmp(Pow(FromNat(m), 256), PowerOfTwo(U)) <= 0
+  IN [s |-> s, lo |-> 256 * (en.k * s + a), hi |-> 256 * (en.k * s + a + en.w)]
+Lower256OK(en, m, L) ==
+  IF L * en.s <= en.lo THEN TRUE
+  ELSE IF L * en.s > en.hi THEN FALSE
+  ELSE Cmp(PowerOfTwo(L), Pow(FromNat(m), 256)) <= 0
+Upper256OK(en, m, U) ==
+  IF U * en.s >= en.hi THEN TRUE
+  ELSE IF U * en.s < en.lo THEN FALSE
+  ELSE Cmp(Pow(FromNat(m), 256), PowerOfTwo(U)) <= 0
 
 \* ------------------------------------------------------------------ the wrappers, one action per branch
 (* State: the argument v, the wrapper branch taken, and the result as integers over a common
@@ -128,7 +127,9 @@ ThreeUb == <<16330, 57358>>
 Encloses ==
   CASE br = "pick" -> TRUE
     [] br = "u8-three" -> Log2BoundsWhy(FromNat(3), One, DecodeF32(ThreeLb), DecodeF32(ThreeUb)) = <<"", 0>>
-    [] OTHER -> Lower256OK(arg, lbn) /\ Upper256OK(uarg, ubn)
+    [] OTHER -> LET en == Encl256(arg) IN
+                /\ Lower256OK(en, arg, lbn)
+                /\ Upper256OK(IF uarg = arg THEN en ELSE Encl256(uarg), uarg, ubn)
 
 \* documented quality: "the result is always less/greater than the exact value and estimation error <= 2"
 \* is not part of the property; the enclosure is.  Kept as a cheap sanity bound on the model itself:
